@@ -736,3 +736,6 @@ def check(ctx):
         deps.semantics_base(ctx, lib)
         deps.nogood_primitives(ctx, lib)
     deps.cli_plumbing(ctx)
+    if ctx.tier == "thorough":
+        from rules import witness
+        witness.check(ctx, ['W10', 'W11'])   # informational: what external crates cannot reach (scope of the who-may-write census)
